@@ -327,10 +327,12 @@ def setup_all():
         OGEN.mkdir(parents=True, exist_ok=True)
         ok, log = make([], timeout=3000)
         (BUILD / "make_setup.log").write_text(log)
-        if not ok:
-            print(log[-4000:])
-            return 1
         rc = 0
+        if not ok:
+            # every check re-makes its own targets and reports what does not build as a broken obligation of
+            # THAT property; a file that fails here must not take the unrelated properties down with it.
+            for where, msg in parse_make_errors(log) or [("make", log[-1500:])]:
+                print(f"SETUP-WARNING: {where}: {msg[:300]}")
         for m in sorted(OCAML.glob("*_main.ml")):
             name = m.name[: -len("_main.ml")]
             dok, msg = build_driver(name)
